@@ -198,6 +198,24 @@ def check_range_ends(case):
                 if on_end:
                     out.nontrivial('%d|%d|%s' % (i - r0, n, tod))
                 out.cls('lands-on-range-end' if x in (r0, r1) else 'inside')
+            if not tod:
+                # bdays as the FIRST question ever put to a calendar object (no table built yet), in both directions: the count is signed
+                for j in (r0, i - 3, i + 2, r1):
+                    if not inside(j):
+                        continue
+                    ej = ref.adjust(j)
+                    if not inside(ej):
+                        continue
+                    lo, hi = min(e0, ej), max(e0, ej)
+                    want = (len(ref.between(lo, hi)) - 1) * (1 if ej >= e0 else -1)
+                    try:
+                        fresh = Calendar(None, holidays=[DTS[h] for h in hol], weekend=list(weekend), t0=DTS[r0], t1=DTS[r1], adj=adj)
+                        got = impl(fresh.bdays, tt, DTS[j])
+                    except Exception as e:
+                        got = e
+                    if got != want:
+                        bad('bdays-wrong', 'bdays(%s, %s) asked of a freshly built calendar: expected %d observed %r' % (fmt(tt), fmt(DTS[j]), want, got), op='bdays', fresh=True,
+                            sign=(want > 0) - (want < 0))
             for j in (r1, r1 - 1, i):
                 ej = ref.adjust(j)
                 if j < i or not inside(ej):
